@@ -120,7 +120,7 @@ pub(crate) mod verif_e4 {
         ($name:ident, $n:expr, $cl:expr) => {
             #[cfg(kani)]
             #[kani::proof]
-            #[kani::unwind(258)]
+            #[kani::unwind(8)]
             #[kani::stub(crate::encoding::blocks::compress_block, stub_compress_block)]
             fn $name() {
                 e4_body::<$n, $cl>();
@@ -137,7 +137,7 @@ pub(crate) mod verif_e4 {
 
     #[cfg(kani)]
     #[kani::proof]
-    #[kani::unwind(258)]
+    #[kani::unwind(8)]
     #[kani::stub(crate::encoding::blocks::compress_block, stub_compress_block)]
     fn e4_canary() {
         let bytes: [u8; 3] = kani::any();
